@@ -59,7 +59,9 @@ func trimNL(b []byte) []byte {
 }
 
 var c13Variants = []variant{
-	{"Colorize(zero scheme)", func(x interface{}) ([]byte, error) { return json.MarshalWithOption(x, json.Colorize(&json.ColorScheme{})) }, nil},
+	{"Colorize(zero scheme)", func(x interface{}) ([]byte, error) {
+		return json.MarshalWithOption(x, json.Colorize(&json.ColorScheme{}))
+	}, nil},
 	{"Colorize(marked scheme)", func(x interface{}) ([]byte, error) { return json.MarshalWithOption(x, json.Colorize(c13Marked)) }, c13Strip},
 	{"MarshalNoEscape", func(x interface{}) ([]byte, error) { return json.MarshalNoEscape(x) }, nil},
 	{"MarshalContext", func(x interface{}) ([]byte, error) { return json.MarshalContext(context.Background(), x) }, nil},
